@@ -159,6 +159,9 @@ def impl(case):
                     mm_.process_data((traj_from(a), traj_from(b)))
                     return [float(x) for x in mm_.error]
                 out["moved"] = [hexf(x) for x in run([T @ p for p in ref], [T @ p for p in est])]
+                m.process_data((tr, tr))    # the same metric object applied to other data, then again to the first pair
+                m.process_data((tr, te))
+                out["again"] = [hexf(x) for x in m.error]
                 out["swapped"] = [hexf(x) for x in run(est, ref)]
                 out["self"] = [hexf(x) for x in run(ref, ref)]
             return out
@@ -368,6 +371,9 @@ def judge(case, val, out):
             if impl_err is not None and not n_ok:
                 return _sv("not exactly one value per pose: " + d)
             return _mv(d)
+        if "again" in out and out["again"] != out["error"]:
+            return _sv("a metric object that had processed other data before returns different values (%d instead of %d)"
+                       % (len(out["again"]), len(out["error"])))
         if case.get("laws") and impl_err is not None:
             tol = dict(rtol=1e-9, atol=1e-9 * scale)
             ang = rel.startswith("rotation_angle")
